@@ -54,8 +54,9 @@ def run(ctx) -> None:
             u = d // len(G.CONVS)
             kw = {'transposed': u % 2 == 1,
                   'tables': [[], ['edge_node'], ['edge_node', 'edge_face'], ['edge_face', 'face_edge']][(u // 2) % 4],
-                  'edge_dim_declared': (u // 8) % 2 == 0}
-        recipe = G.random_recipe(rng, conv, ctx.tier, **kw)
+                  'edge_dim_declared': (u // 8) % 2 == 0,
+                  'edge_tables_as_coords': u % 3 == 2}
+        recipe = G.random_recipe(rng, conv, ctx.tier, vary=True, **kw)
         # data variables in arbitrary dimension orders: the grid's shape and index order may not follow them
         recipe = G.attach_vars(rng, recipe, n_vars=2, max_extra=1)
         built = G.build(recipe)
